@@ -34,6 +34,12 @@ IsEvent(name) == l <= Len(Trace) /\ Trace[l].ev = name /\ l' = l + 1
 
 E == Trace[l]
 
+(* Long traces are validated in projection: the harness keeps only the events of a few  *)
+(* rules (a projection of a Packrat behaviour onto a subset of keys is again a Packrat   *)
+(* behaviour); such events carry the field "proj" and their logged stack depth, which    *)
+(* counts the dropped frames too, is not compared.                                       *)
+DepthOK(n) == ("proj" \in DOMAIN E) \/ E.d = n
+
 TBegin == /\ IsEvent("begin")
           /\ Begin(E.c, KeyOf(E), E.host)
           /\ E.d = 1
@@ -42,19 +48,19 @@ TBegin == /\ IsEvent("begin")
 TPush  == /\ IsEvent("push")
           /\ Push(E.c, KeyOf(E), E.host)
           /\ E.host = host[E.c]                      \* trampolining: host stack depth constant
-          /\ E.d = Len(stack'[E.c])
+          /\ DepthOK(Len(stack'[E.c]))
           /\ UNCHANGED pbodies
 
 THit   == /\ IsEvent("hit")
           /\ Hit(E.c, KeyOf(E), ResOf(E), E.host)
           /\ E.host = host[E.c]
-          /\ E.d = Len(stack[E.c])
+          /\ DepthOK(Len(stack[E.c]))
           /\ UNCHANGED pbodies
 
 TRet   == /\ IsEvent("ret")
           /\ Ret(E.c, KeyOf(E), ResOf(E), E.host)
           /\ E.host = host[E.c]
-          /\ E.d = Len(stack'[E.c])
+          /\ DepthOK(Len(stack'[E.c]))
           /\ UNCHANGED pbodies
 
 TEnd   == /\ IsEvent("end")
